@@ -20,6 +20,7 @@ run rockredis zz_fix_c09_test.go 'TestZZDupMembersCountedOnce|TestZZIncrByZeroKe
 run rockredis zz_fix_c10_test.go TestZZAppendSetRangeOnExpired
 run rockredis zz_fix_c11_test.go TestZZSetRangeNegativeOffset
 run rockredis zz_fix_c11b_test.go TestZZSetExOverflowStoresNothing
+run rockredis zz_fix_c11c_test.go TestZZSetRangeHugeOffset
 run rockredis zz_fix_c07_test.go TestZZHClearSameLogSameResult
 run rockredis zz_fix_c07b_test.go TestZZZFixKeySameLogSameResult
 run transport/rafthttp zz_fix_c16_test.go TestZZMsgAppV2CorruptLength
